@@ -87,3 +87,34 @@ Definition Fits (W H : N) (s : sys) (h : list (N * op)) : Prop := fitsb W H s h 
 (** the right-hand side of the C01 equation: earlier content, the log, the current frame *)
 Definition expected_rows (W : N) (pre : list (list N)) (g : ghost) : list (list N) :=
   pre ++ wrap (N.to_nat W) (g_log g) ++ wrap (N.to_nat W) (map lt (g_frame g)).
+
+(* ------------------------------------------------------------------ C19: frames taller than the terminal *)
+(** the maximal prefix of the frame whose accumulated rows fit the height (what the paint loop
+    paints of the Bar lines, recomputed from scratch at every draw) *)
+Definition fit_prefix (W H : N) (frame : list line) : list line := painted frame W H 0.
+
+(** the narrow class outside which C19's erase-exactness holds for the single bar: a println
+    while not even the FIRST line of the frame fits the terminal height (then text lines are
+    painted, the height `break` fires before any Bar line, the right-edge filler is skipped and
+    the next output continues on the last text row: 'text-drawn-while-no-bar-line-fits') *)
+Definition no_text_cut_step (W H : N) (s : sys) (x : N * op) : bool :=
+  let '(s', _, _) := step W H nofail s (fst x) (snd x) in
+  match snd x with
+  | OPrintln _ _ =>
+      match frame_of (get_bar s' 0) with
+      | [] => true
+      | l :: _ => wrapped_height l W <=? H
+      end
+  | _ => true
+  end.
+
+Fixpoint no_text_cutb (W H : N) (s : sys) (h : list (N * op)) : bool :=
+  match h with
+  | [] => true
+  | x :: r => no_text_cut_step W H s x
+              && no_text_cutb W H (fst (fst (step W H nofail s (fst x) (snd x)))) r
+  end.
+Definition NoTextCut (W H : N) (s : sys) (h : list (N * op)) : Prop := no_text_cutb W H s h = true.
+
+Definition expected_rows_cut (W H : N) (pre : list (list N)) (g : ghost) : list (list N) :=
+  pre ++ wrap (N.to_nat W) (g_log g) ++ wrap (N.to_nat W) (map lt (fit_prefix W H (g_frame g))).
